@@ -462,7 +462,7 @@ def create_cases():
                 snap["orig_balance"] = balance_snapshot(cb, pre.balance)
                 ctx.oblige("snapshot equals the state before the creation (no new account, endowment not yet moved)", z3.BoolVal(storage_fingerprint(snap["orig_storage"]) == pre.storage and [str(k) for k in snap["orig_code"]] == pre.code_keys and snap["orig_balance"] is pre.balance))
                 reach_sub_state = reachable_ids(NS(a=sub.code, b=sub.storage, c=sub.transient_storage, d=sub.st, e=sub.context, f=sub.alias))
-                snap_objs = [snap["orig_code"], snap["orig_storage"], snap["orig_transient_storage"]] + list(snap["orig_storage"].values())
+                snap_objs = [snap["orig_code"], snap["orig_storage"], snap["orig_transient_storage"]] + list(snap["orig_storage"].values()) + list(snap["orig_transient_storage"].values()) + [sd._mapping for sd in list(snap["orig_storage"].values()) + list(snap["orig_transient_storage"].values())]
                 ctx.oblige("frame condition: no snapshot object is reachable from the state the creation frame works on", z3.BoolVal(not any(id(o) in reach_sub_state for o in snap_objs)))
                 # the init code does something, then ends
                 sevm.sstore(sub, new_addr, hb.HalmosBitVec(1), hb.HalmosBitVec(2))
